@@ -1,6 +1,7 @@
 """C02 — Pr*A*Pc = L*U with bounded multipliers and diagonal preference"""
 from hypothesis import strategies as st
 from props.common import factor_case, std_classes
+from props.hist import hist_case
 
 ID = "C02"
 LEVEL = "exploration"
@@ -35,18 +36,29 @@ def c02_case(draw, nmax=40, pmax=4, nmin=1, small=0.15):
     return case
 
 
+def _as_c08(c):
+    c["set"]["prop"] = "C08"; c["set"]["via"] = "history"; c["set"].setdefault("u", 1.0); c["set"].setdefault("P", 1); return c
+
+
 def strategy(tier):
+    # the threshold / multiplier clauses also hold when a caller-supplied row order is reused (usepr=YES): those steps come
+    # from the history generator (first factorization, then refactorization of new values with the old perm_r)
     if tier == "quick":
-        return c02_case()
-    return st.one_of(c02_case(nmax=60, pmax=8), c02_case(nmin=40, nmax=250, pmax=8, small=0.0))
+        return st.one_of(c02_case(), c02_case(), c02_case(), hist_case(nmax=30, maxlen=4).map(_as_c08))
+    return st.one_of(c02_case(nmax=60, pmax=8), c02_case(nmin=40, nmax=250, pmax=8, small=0.0), hist_case(nmax=60, maxlen=8).map(_as_c08))
 
 
 def nontrivial(case, v):
     f = v.get("f", {})
+    if case["set"].get("via") == "history":
+        return f.get("usepr_kept", 0) + f.get("usepr_fallback", 0) > 0
     return f.get("info", 1) == 0 and (f.get("maxsup", 0) >= 3 or f.get("offdiag_pivots", 0) > 0 or (case["set"].get("P", 1) >= 2 and f.get("thr_panels", 0) >= 2))
 
 
 def classify(case, v):
+    if case["set"].get("via") == "history":
+        from props.hist import hist_classes
+        return ["via=history"] + hist_classes(case, v)
     labs = std_classes(case, v)
     labs.append("via=" + case["set"]["via"]); labs.append("u=%g" % case["set"]["u"] if case["set"]["u"] in (0.0, 1e-3, 0.1, 0.5, 1.0) else "u=other")
     if v.get("f", {}).get("pivot_ambiguous", 0) > 0: labs.append("pivot_in_ambiguity_band")
